@@ -123,3 +123,21 @@ Proof.
   unfold with_capacity, with_capacity_assembled. destruct (chunks b); [|reflexivity].
   destruct (cap =? 0); [reflexivity|]. destruct (layout_ok cap (k_malign k)); reflexivity.
 Qed.
+
+(* ---------- Alloc::realloc (RawVec's route into the arena) ---------- *)
+Definition realloc_assembled (k : cfg) (A : acquirer) (b : bump) (p : N) (l : layout)
+           (old_empty : bool) (new_lay : option layout) (shrinks : bool) : bump * out :=
+  if old_empty then try_alloc k A b l
+  else match new_lay with
+       | None => (b, out_of RErr)
+       | Some nl => if shrinks then shrink k A b p l nl else grow k A b p l nl
+       end.
+
+Theorem realloc_is_assembled k A b p l n :
+  realloc k A b p l n =
+  realloc_assembled k A b p l (l_size l =? 0)
+    (if layout_ok n (l_align l) then Some (mkLayout n (l_align l)) else None) (n <=? l_size l).
+Proof.
+  unfold realloc, realloc_assembled. destruct (l_size l =? 0); [reflexivity|].
+  destruct (layout_ok n (l_align l)); reflexivity.
+Qed.
